@@ -3,11 +3,12 @@
    Model: ms/Client.v ([listscripts]/[parse_listing], [getscript]) after the two decoding
    repairs: read_response inserts every literal as a quoted string (quote_literals), so the
    assembled listing is [listing_resp es] and the assembled script is [quote body ++ ...]
-   whichever encoding the server chose.  Proofs: ms/DecodeFacts.v (pure decoding), and
-   C05/C09 for the reading.  The assembling step itself (read_response with ql = true producing
-   exactly listing_resp / quote body) is exercised by the correspondence check, not proved. *)
-From Coq Require Import List NArith Bool.
-From SV Require Import Bytes Client DecodeFacts.
+   whichever encoding the server chose.  Proofs: ms/DecodeFacts.v (pure decoding), ms/DataFacts.v
+   (the assembling step: read_response with ql = true produces exactly listing_resp / quote body for
+   every mix of quoted strings and literals), ms/SessionData.v (both operations end to end against the
+   reference server), and C05/C09 for the reading of segments and status replies. *)
+From Coq Require Import String List NArith Bool.
+From SV Require Import Bytes Client Transport Server StatusFacts DecodeFacts DataFacts SessionFacts SessionData.
 Import ListNotations.
 
 (* names: any bytes but CR/LF — {5}, OK, "x" ACTIVE, quotes and backslashes come back verbatim *)
@@ -50,3 +51,50 @@ Theorem C17_unescape : forall l, unescape_q (escape_q l) = l.
 Proof. exact DecodeFacts.unescape_escape. Qed.
 Print Assumptions C17_quote_roundtrip.
 Print Assumptions C17_unescape.
+
+(* ---- end to end against the reference server, whatever encodings it chooses *)
+
+(* the assembling step *)
+Theorem C17_assemble_listing :
+  forall (P : Type) (react : P -> bytes -> P * bytes) (oc ot : P -> option (P * bytes))
+         es r f resp cpt st k (w : sworld P) rest,
+    Forall (fun x => name_ok (fst (fst x))) es -> reply_ok r ->
+    s_stream P w = listing_stream es ++ render_reply r ++ rest ->
+    interp_s P react oc ot (read_response (S (length es + f)) None true resp cpt st k) w =
+    match r_status r with
+    | StOK => interp_s P react oc ot (k st (Some (bs "OK")) (data_of r) (resp ++ listing_resp (map fst es))) (s_set P rest w)
+    | StNO => interp_s P react oc ot (k (set_err (code_of r) (text_of r) st) (Some (bs "NO")) (data_of r)
+                                        (resp ++ listing_resp (map fst es))) (s_set P rest w)
+    | StBYE => (OFail ExBye st, s_set P (after_line r ++ rest) w)
+    end.
+Proof. exact DataFacts.read_response_listing. Qed.
+Print Assumptions C17_assemble_listing.
+
+(* LISTSCRIPTS: exactly the names of the store, the active one apart *)
+Theorem C17_listscripts_end_to_end :
+  forall f st (w : sworld sstate),
+    c_auth st = true -> s_stream sstate w = [] -> conforming (s_peer sstate w) -> names_ok (s_peer sstate w) ->
+    let s := s_peer sstate w in
+    let es := listing_entries (s_store s) (s_active s) in
+    fst (interp_s sstate srv_react srv_connect srv_tls (listscripts (S (length (s_store s) + f)) st finish) w) =
+    ODone (VListing (last_active es) (map fst (filter (fun e => negb (snd e)) es))) st.
+Proof.
+  intros f st w Ha Hs Hc Hn s es.
+  destruct (SessionData.listscripts_against_server f st w Ha Hs Hc Hn) as (s3 & R & _).
+  fold s in R. fold es in R. rewrite R. reflexivity.
+Qed.
+Print Assumptions C17_listscripts_end_to_end.
+
+(* GETSCRIPT: exactly the lines of the stored script *)
+Theorem C17_getscript_end_to_end :
+  forall f name content st (w : sworld sstate),
+    c_auth st = true -> s_stream sstate w = [] -> conforming (s_peer sstate w) ->
+    assoc_get name (s_store (s_peer sstate w)) = Some content ->
+    fst (interp_s sstate srv_react srv_connect srv_tls (getscript (S (S (S f))) name st finish) w) =
+    ODone (VBytes (join [10%N] (splitlines content))) st.
+Proof.
+  intros f name content st w Ha Hs Hc Hg.
+  destruct (SessionData.getscript_against_server f name content st w Ha Hs Hc Hg) as (s3 & R & _).
+  rewrite R. reflexivity.
+Qed.
+Print Assumptions C17_getscript_end_to_end.
